@@ -3,7 +3,7 @@ import Driver.Util
 /-! domain `bc`
 * `bc<TAB>decode<TAB>hexcode<TAB>nvalues` → `ok o0,o1,…,end` | `err <pc> <class>` (mirror of Disassemble's loop)
 * `bc<TAB>verify<TAB>strict|lax<TAB>F0|F1|…` with `F = name;params;upvalues;hexcode;consts;catches`,
-  consts `,`-separated tokens (`f<k>` `c<argc>` `b<argc>.<tail>.<k>` `n<argc>.<params>` `s` `i<n>` `u` `t` `F` `z` `S<pops>` `o`),
+  consts `,`-separated tokens (`f<k>` `c<argc>` `b<argc>.<tail>.<k>` `n<argc>.<params>` `s` `i<n>` `u` `t` `F` `z` `S<pops>.<cases>` `o`),
   catches `,`-separated `from.to.jump.fin` → one token per function: `k:ok:states:maxdepth:poly` | `k:err:<fault>`
 -/
 namespace Driver.Dom.Bytecode
@@ -39,7 +39,10 @@ def parseConst (s : String) : Option Const :=
   | 'f' :: r => (String.ofList r).toNat?.map .fn
   | 'c' :: r => (String.ofList r).toNat?.map .callSite
   | 'i' :: r => (String.ofList r).toInt?.map .int
-  | 'S' :: r => (String.ofList r).toNat?.map .select
+  | 'S' :: r =>
+    match (String.ofList r).splitOn "." with
+    | [a, c] => do pure (.select (← a.toNat?) (← c.toNat?))
+    | _ => none
   | 'b' :: r =>
     match (String.ofList r).splitOn "." with
     | [a, t, k] => do pure (.bcSite (← a.toNat?) ((← t.toNat?) = 1) (← k.toInt?))
@@ -95,14 +98,30 @@ def verifyAll (P : Prog) (lax : Bool) : String :=
     match P[k]? with
     | none => s!"{k}:err:missing"
     | some f =>
-      match verifyFunc P f lax with
-      | .ok v => s!"{k}:ok:{v.states}:{v.maxDepth}:{if v.poly.isEmpty then "-" else showNats v.poly}"
-      | .error e => s!"{k}:err:{showFault e}"
+      let sc (c : Option (Nat × Nat)) : String := match c with
+        | some (a, b) => s!"{a}>{b}"
+        | none => "-"
+      match verifyFuncD P f lax with
+      | .ok v => s!"{k}:ok:{v.states}:{v.maxDepth}:{if v.poly.isEmpty then "-" else showNats v.poly}:{sc v.conflict}:-"
+      | .error r => s!"{k}:err:{showFault r.fault}:{sc r.conflict}"
   joinWith " " toks
 
 def showAV : AV → String
   | .any => "_" | .tru => "T" | .fls => "F" | .nil => "N" | .undef => "U"
-  | .int n => s!"i{n}" | .sel n => s!"S{n}" | .fn k => s!"f{k}"
+  | .int n => s!"i{n}" | .sel n c => s!"S{n}.{c}" | .fn k => s!"f{k}"
+
+/-- debugging aid: like `explore` but returns what was visited when a fault stops the search -/
+def exploreDbg (P : Prog) (f : Func) (cfg : Cfg) :
+    (fuel : Nat) → (work : List St) → (seen : Std.HashSet St) → (acc : List St) → List St × String
+  | 0, _, _, acc => (acc, "fuel")
+  | _ + 1, [], _, acc => (acc, "done")
+  | fuel + 1, s :: work, seen, acc =>
+    if seen.contains s then exploreDbg P f cfg fuel work seen acc
+    else if s.stk.length > 40 then (s :: acc, s!"deep@{s.pc}")
+    else
+      match exec P f cfg s with
+      | .error e => (s :: acc, showFault e)
+      | .ok l => exploreDbg P f cfg fuel (l ++ work) (seen.insert s) (s :: acc)
 
 /-- debugging aid: the explored states of function `k` as `pc:stack(top first)` -/
 def statesOf (P : Prog) (k : Nat) (lax : Bool) : String :=
@@ -111,7 +130,9 @@ def statesOf (P : Prog) (k : Nat) (lax : Bool) : String :=
   | some f =>
     match verifyFunc P f lax with
     | .ok v => "ok " ++ joinWith " " (v.cert.reverse.map fun s => s!"{s.pc}:{joinWith "," (s.stk.map showAV)}")
-    | .error e => s!"err {showFault e}"
+    | .error _ =>
+      let (acc, why) := exploreDbg P f { lax := lax } 100000 [St.entry f { lax := lax }] {} []
+      s!"ok {joinWith " " (acc.reverse.map fun s => s!"{s.pc}:{joinWith "," (s.stk.map showAV)}")} !{why}"
 
 def handle : List String → String
   | ["states", mode, prog, k] =>
